@@ -11,7 +11,7 @@ sed "s#/tmp/wt_C[0-9]*#$wt#g" "$demo" > $out/demo.py
 ( cd /tmp && PYTHONPATH=$wt/src /venv/bin/python $out/demo.py > $out/demo_clean.log 2>&1 ); rc_clean=$?
 git -C $wt apply "$patch" || { echo "{\"id\":\"$id\",\"error\":\"patch does not apply to $head\"}" > $out/result.json; git -C /repo worktree remove --force $wt; exit 1; }
 ( cd /tmp && PYTHONPATH=$wt/src /venv/bin/python $out/demo.py > $out/demo_mut.log 2>&1 ); rc_mut=$?
-( cd $wt && PYTHONPATH=$wt/src /venv/bin/python -m pytest -q -p no:cacheprovider -p no:warnings --timeout=900 -n $j > $out/suite.log 2>&1 ); rc_suite=$?
+( cd $wt && PYTHONPATH=$wt/src /venv/bin/python -m pytest -q -p no:cacheprovider -p no:warnings --timeout=3000 -n $j > $out/suite.log 2>&1 ); rc_suite=$?
 last=$(tail -1 $out/suite.log)
 echo "{\"id\":\"$id\",\"repo_head\":\"$head\",\"demo_clean_rc\":$rc_clean,\"demo_mutant_rc\":$rc_mut,\"suite_rc\":$rc_suite,\"suite_last_line\":\"$last\"}" > $out/result.json
 git -C /repo worktree remove --force $wt
